@@ -1,4 +1,4 @@
-\* source registry (C09): one module in every state, descriptor / timer / signal sources, 2 keys each, every order of register / deregister, pause/resume, stop
+\* a source that cannot be armed (a pid source naming no process) registered on a RUNNING module next to a good one: refused, no trace in the registry, counts and later registrations unaffected (C09); one module in every state
 CONSTANTS
   Mods = {"A"}
   Order <- Order1
@@ -7,7 +7,7 @@ CONSTANTS
   Flags <- Flags_none
   CtxPersist = TRUE
   Topics = {"t1"}
-  Pats = {}
+  Pats = {"t1", "t."}
   MaxPay = 1
   Cap = 2
   MaxNest = 0
@@ -18,9 +18,9 @@ CONSTANTS
   BatchSizes = {}
   UnstashNs = {}
   HandlerIds = {}
-  Kinds = {"fd", "tmr", "sgn"}
+  Kinds = {"pid"}
   Keys = {1, 2}
-  BadKeys = {}
+  BadKeys = {2}
   SrcOpts <- Opts_plain
   EvKinds = {"ps"}
   MaxBatch = 2
